@@ -330,7 +330,10 @@ func judge(b *Build, prop string, segIdx int, seg *Segment, out *RunOut, refs *R
 				if cr.ArgMod {
 					v := at
 					v.Class = "input-modified"
-					v.Detail = "the call changed the caller's argument buffer"
+					v.Detail = "the call changed the caller's argument buffer (or wrote into its spare capacity)"
+					if c.Fn == "scale" {
+						v.Detail = "Scale changed the barcode that was passed to it: " + cr.Err
+					}
 					vs = append(vs, v)
 				}
 				if cr.LaterWhat != "" {
